@@ -16,7 +16,10 @@ import collections
 import json
 import os
 import random
+import re
 import shutil
+import sys
+import time
 
 from harness import env, tlc
 from harness.verdict import Run
@@ -115,6 +118,7 @@ def _key(e):
 
 
 def load_emitted(text):
+    """the emitted stream as plain YAML -> list of instruction-form dicts"""
     import ruamel.yaml
 
     y = ruamel.yaml.YAML(typ="safe")
@@ -125,14 +129,79 @@ def load_emitted(text):
     return [e for e in forms if isinstance(e, dict)]
 
 
+_CHUNK_MEMO = {}
+
+
+def split_forms(text):
+    """Reader optimisation: the dump writes instruction_forms last, as a block sequence whose items start
+    with '- ' in column 0.  -> list of item texts, or None if the stream does not have that shape (the
+    caller then parses the whole stream)."""
+    i = text.rfind("\ninstruction_forms:\n")
+    if i < 0:
+        return None
+    lines = text[i + len("\ninstruction_forms:\n"):].split("\n")
+    if not lines or not lines[0].startswith("- "):
+        return None
+    chunks, cur = [], []
+    for l in lines:
+        if l.startswith("- "):
+            if cur:
+                chunks.append("\n".join(cur))
+            cur = [l]
+        elif l == "" or l.startswith(" "):
+            cur.append(l)
+        else:
+            return None      # another top-level key follows: not the expected shape
+    if cur:
+        chunks.append("\n".join(cur))
+    return chunks
+
+
+def parse_chunk(chunk):
+    import ruamel.yaml
+
+    if chunk not in _CHUNK_MEMO:
+        d = ruamel.yaml.YAML(typ="safe").load(chunk)
+        if not (isinstance(d, list) and len(d) == 1 and isinstance(d[0], dict)):
+            raise ValueError("unexpected instruction_forms item")
+        if len(_CHUNK_MEMO) > 20000:
+            _CHUNK_MEMO.clear()
+        _CHUNK_MEMO[chunk] = d[0]
+    return _CHUNK_MEMO[chunk]
+
+
+_RE_FIRST = re.compile(r"^- (?:name|mnemonic): (\S+)\s*$")
+
+
+def read_stream(text, wanted):
+    """-> list of (entry dict, raw key) for every emitted instruction form whose mnemonic (lower case) is in
+    `wanted` or could not be read off its first line; all other entries are returned as (None, raw key)."""
+    chunks = split_forms(text)
+    if chunks is None:
+        return [(e, _key(e)) for e in load_emitted(text)]
+    out = []
+    for c in chunks:
+        m = _RE_FIRST.match(c.split("\n", 1)[0])
+        if m and m.group(1).strip("'\"").lower() not in wanted:
+            out.append((None, c))
+        else:
+            out.append((parse_chunk(c), c))
+    return out
+
+
 def project(case, emitted, baseline):
+    """emitted: [(entry or None, raw key)] from read_stream; baseline: raw keys of the empty import"""
     base = collections.Counter(baseline)
     by_mn = collections.defaultdict(list)
-    for e in emitted:
-        k = _key(e)
+    for e, k in emitted:
         new = base[k] <= 0
         if not new:
             base[k] -= 1
+        if e is None:
+            if new:      # cannot happen: unparsed entries are only skipped on a readable first line
+                e = parse_chunk(k)
+            else:
+                continue
         by_mn[_mnemonic(e).lower()].append((e, new))
     forms, seen = [], set()
     for ent in case["file"]:
@@ -150,14 +219,65 @@ def project(case, emitted, baseline):
 
 
 # ------------------------------------------------------------------ running the CLI
+def cli_forked(argv, scratch, tag):
+    """`osaca <argv>` = osaca.osaca.main() with sys.argv set, in a process forked from this one, which has
+    imported the osaca modules from the repository under test but never loaded a model (saves the 0.6 s
+    import per run).  stdout/stderr go to files.  -> (rc, stdout, stderr) like env.run_cli."""
+    import osaca.osaca  # noqa: F401  (import only)
+
+    po, pe = os.path.join(scratch, tag + ".out"), os.path.join(scratch, tag + ".err")
+    sys.stdout.flush()
+    sys.stderr.flush()
+    pid = os.fork()
+    if pid == 0:
+        code = 1
+        try:
+            for path, fd in ((po, 1), (pe, 2)):
+                f = os.open(path, os.O_WRONLY | os.O_CREAT | os.O_TRUNC, 0o644)
+                os.dup2(f, fd)
+                os.close(f)
+            sys.stdout = os.fdopen(1, "w", closefd=False)
+            sys.stderr = os.fdopen(2, "w", closefd=False)
+            sys.argv = ["osaca"] + list(argv)
+            os.chdir("/")
+            try:
+                osaca.osaca.main()
+                code = 0
+            except SystemExit as e:
+                code = e.code if isinstance(e.code, int) else (0 if e.code is None else 1)
+            except BaseException:
+                import traceback
+
+                traceback.print_exc()
+                code = 1
+            sys.stdout.flush()
+            sys.stderr.flush()
+        finally:
+            os._exit(code)
+    _, status = os.waitpid(pid, 0)
+    rc = os.WEXITSTATUS(status) if os.WIFEXITED(status) else -1
+    with open(po, encoding="utf-8", errors="replace") as f:
+        out = f.read()
+    with open(pe, encoding="utf-8", errors="replace") as f:
+        err = f.read()
+    os.unlink(po)
+    os.unlink(pe)
+    return rc, out, err
+
+
 def _import(args):
-    """child: write the file, run the CLI, read the stream back -> (id, err, emitted entries)"""
-    cid, arch, mode, text, scratch = args
-    path = os.path.join(scratch, "%s.%s.dat" % (cid.replace("/", "_"), mode))
+    """child: write the file, run the CLI, read the stream back -> (id, err, [(entry, raw key)])"""
+    cid, arch, mode, text, scratch, wanted, fresh = args
+    tag = cid.replace("/", "_")
+    path = os.path.join(scratch, "%s.%s.dat" % (tag, mode))
     with open(path, "w") as f:
         f.write(text)
+    argv = ["--arch", arch, "--import", mode, path]
     try:
-        rc, out, err = env.run_cli(["--arch", arch, "--import", mode, path], timeout=300)
+        if fresh:
+            rc, out, err = env.run_cli(argv, timeout=300)
+        else:
+            rc, out, err = cli_forked(argv, scratch, tag)
     except Exception as e:  # timeout etc.
         return cid, "%s: %s" % (type(e).__name__, e), []
     finally:
@@ -166,7 +286,7 @@ def _import(args):
         tail = [l for l in err.strip().splitlines() if l.strip()]
         return cid, "exit code %d: %s" % (rc, tail[-1][:200] if tail else ""), []
     try:
-        return cid, "", load_emitted(out)
+        return cid, "", read_stream(out, wanted)
     except Exception as e:
         return cid, "emitted stream unreadable: %s: %s" % (type(e).__name__, str(e)[:160]), []
 
@@ -174,7 +294,8 @@ def _import(args):
 def run_imports(cases, scratch, baselines):
     import multiprocessing as mp
 
-    jobs = [(c["id"], c["arch"], c["mode"], c["text"], scratch) for c in cases]
+    jobs = [(c["id"], c["arch"], c["mode"], c["text"], scratch, {e["form"]["mnem"].lower() for e in c["file"]},
+             bool(c.get("fresh_interpreter"))) for c in cases]
     byid = {c["id"]: c for c in cases}
     with mp.get_context("fork").Pool(14) as pool:
         for cid, err, emitted in pool.imap_unordered(_import, jobs, chunksize=4):
@@ -184,10 +305,17 @@ def run_imports(cases, scratch, baselines):
 
 
 def baseline(arch, scratch):
-    cid, err, emitted = _import(("baseline-" + arch, arch, "ibench", "Using frequency 2.50GHz.\n", scratch))
-    if err:
-        raise tlc.TLCError("baseline import into %s failed: %s" % (arch, err))
-    return [_key(e) for e in emitted]
+    """raw keys of the stream emitted for an empty benchmark file; computed in a fresh interpreter and in a
+    forked one, which must agree (self-test of cli_forked)"""
+    res = []
+    for fresh in (True, False):
+        cid, err, emitted = _import(("baseline-%s-%d" % (arch, fresh), arch, "ibench", "Using frequency 2.50GHz.\n", scratch, set(), fresh))
+        if err:
+            raise tlc.TLCError("baseline import into %s failed: %s" % (arch, err))
+        res.append([k for _, k in emitted])
+    if res[0] != res[1]:
+        raise tlc.TLCError("forked CLI and fresh-interpreter CLI emit different models for %s" % arch)
+    return res[0]
 
 
 def model_index(arch):
@@ -222,7 +350,7 @@ def concretise(rec, forms):
     file = []
     for e in rec["file"]:
         e = dict(e)
-        e["form"] = forms[e["form"]["id"]]
+        e["form"] = dict(forms[e["form"]["id"]], mkey=forms[e["form"]["id"]]["mnem"].lower())
         file.append(e)
     return file
 
@@ -293,7 +421,7 @@ def rand_forms(isa, rnd, index, n):
             mn = rnd.choice(WITH_TP + WITH_LT)
         else:
             mn = rnd.choice(existing)[0].lower()      # existing mnemonic, arity possibly different
-        f = {"id": "f%d" % len(forms), "mnem": mn, "ops": [rand_opcode(isa, rnd) for _ in range(arity)]}
+        f = {"id": "f%d" % len(forms), "mnem": mn, "mkey": mn.lower(), "ops": [rand_opcode(isa, rnd) for _ in range(arity)]}
         nm = form_name(f).lower()
         if "-" in mn or "_" in mn or ":" in mn or nm in names:
             continue
@@ -327,8 +455,12 @@ def rand_case(cid, isa, arch, rnd, index):
 # ------------------------------------------------------------------ verdicts
 def form_class(case, form, indexes):
     cls = []
-    if case["isa"] == "x86" and (form["mnem"].upper(), len(form["ops"])) in indexes[case["arch"]]:
+    key = (form["mnem"].upper(), len(form["ops"]))
+    others = {(e["form"]["mnem"].upper(), len(e["form"]["ops"])) for e in case["file"] if e["form"]["id"] != form["id"]}
+    if case["isa"] == "x86" and key in indexes[case["arch"]]:
         cls.append("mnemonic-and-arity-in-target-model")
+    elif case["isa"] == "x86" and key in others:
+        cls.append("mnemonic-and-arity-shared-with-another-imported-form")
     else:
         cls.append("no-entry-with-mnemonic-and-arity")
     if case["mode"] == "ibench" and "TP" in form_name(form):
@@ -350,13 +482,15 @@ def validate(run, cases, indexes, label):
     run.add_mc(r, label)
     run.add_traces(len(cases))
     byid = {c["id"]: c for c in cases}
+    unknown = []
     for cid, clause, rest in rejects:
         c = byid[cid]
         fid, detail = (rest + ["", ""])[:2]
         keep = {k: c[k] for k in ("id", "isa", "arch", "mode", "file", "text", "origin", "obs")}
         if clause == "exception":
             sig = "C20:exception:%s:%s" % (c["mode"], exception_class(c))
-            run.fail(sig, "osaca --arch %s --import %s on %s (%d entries): %s" % (c["arch"], c["mode"], c["id"], len(c["file"]), c["obs"]["err"]), keep)
+            if run.fail(sig, "osaca --arch %s --import %s on %s (%d entries): %s" % (c["arch"], c["mode"], c["id"], len(c["file"]), c["obs"]["err"]), keep) != "known":
+                unknown.append((cid, clause))
             continue
         form = [e["form"] for e in c["file"] if e["form"]["id"] == fid][0]
         sig = "C20:%s:%s:%s:%s" % (c["mode"], c["isa"], clause, form_class(c, form, indexes))
@@ -366,8 +500,9 @@ def validate(run, cases, indexes, label):
             json.dumps([e for e in (obs[0] if obs else []) if e["new"]][:3]) + (" (+%d pre-existing)" % sum(1 for e in obs[0] if not e["new"]) if obs and obs[0] else ""),
             detail)
         keep["form"] = fid
-        run.fail(sig, what, keep)
-    return rejects
+        if run.fail(sig, what, keep) != "known":
+            unknown.append((cid, clause, fid))
+    return unknown
 
 
 def emit(run, cfg):
@@ -375,18 +510,30 @@ def emit(run, cfg):
     if os.path.exists(out):
         os.unlink(out)
     try:
-        r = tlc.run_tlc("MC_BenchImport", "MC_BenchImport_" + cfg, env={"OUTFILE": out}, workers=8, timeout=900)
+        r = tlc.run_tlc("MC_BenchImport", "MC_BenchImport_" + cfg, env={"OUTFILE": out}, workers=8, timeout=900, coverage=True)
         recs = tlc.read_emitted(out)
     finally:
         if os.path.exists(out):
             os.unlink(out)
     run.add_mc(r, "MC_BenchImport_" + cfg)
+    # no action of the model may be vacuous (HARNESS_GUIDE R1)
+    from harness.parsers_common import _cov_actions
+
+    acts = _cov_actions(r.raw)
+    need = {"grid": ["IbenchTP", "IbenchLT", "Dump"], "ibench": ["IbenchTP", "IbenchLT", "Dump"],
+            "asmbench": ["AsmbenchBlock", "Malformed", "Ignored", "Dump"]}[cfg]
+    for a in need:
+        if acts.get(a, 0) == 0:
+            raise tlc.TLCError("MC_BenchImport_%s: action %s never taken (vacuous model)" % (cfg, a))
+    run.note("actions_covered_" + cfg, {a: acts[a] for a in need})
     seen, rows = set(), []
     for rec in recs:
         k = json.dumps(rec["file"], sort_keys=True)
         if k not in seen:
             seen.add(k)
             rows.append(rec)
+    if len(rows) != acts.get("Dump", -1):
+        raise tlc.TLCError("MC_BenchImport_%s: %d files emitted for %d dumped states" % (cfg, len(rows), acts.get("Dump", -1)))
     rows.sort(key=lambda x: json.dumps(x["file"], sort_keys=True))
     return rows
 
@@ -397,7 +544,7 @@ def level_b_divergence(run, c):
         return
     for f in c["obs"]["forms"]:
         new = [e for e in f["entries"] if e["new"]]
-        pred = c["db"].get(f["id"])
+        pred = c["db"].get(f["id"]) if isinstance(c["db"], dict) else None
         if pred is None or len(new) != 1:
             continue
         if abs(new[0]["tp"] - pred["tp"]) > 10 or new[0]["lt"] != pred["lt"]:
@@ -412,8 +559,8 @@ def main(tier, seed):
     run.rule = ("a case = one benchmark file imported through the real CLI and decided by TLC; files: the single-entry "
                 "measurement grid and (a seeded sample of) all files of <= 3/4 entries emitted by TLC, on x86 (zen1) and "
                 "AArch64 (n1), plus seeded random files of 1-30 forms over all documented operand codes; non-trivial = "
-                "distinct (mode, isa, entry sequence) with at least one measurement outside the tolerances, a merge of a "
-                "TP and an LT line, or a malformed block")
+                "distinct (mode, isa, entry sequence) with a TP and an LT line of one form to merge, a value emitted as "
+                "missing, or a malformed block")
     archs = ["zen1", "n1"] + ([] if quick else ["tx2"])
     env.warm_models(archs)
     indexes = {a: model_index(a) for a in ["zen1", "n1", "tx2"]}
@@ -431,12 +578,13 @@ def main(tier, seed):
                     file = concretise(rec, concrete_forms(isa, indexes[arch]))
                     text = render_ibench(file, rnd) if rec["mode"] == "ibench" else render_asmbench(file, rnd)
                     cases.append({"id": "%s/%d/%s" % (cfg, i, arch), "isa": isa, "arch": arch, "mode": rec["mode"], "file": file,
-                                  "text": text, "origin": "tlc:" + cfg, "db": rec["db"]})
+                                  "text": text, "origin": "tlc:" + cfg, "db": rec["db"],
+                                  "fresh_interpreter": cfg == "grid" and arch == "zen1"})
 
         # ---- R1 + R2: measurement grid (every grid point on both ISAs)
-        add_from(emit(run, "grid"), "grid", lambda i: ["zen1", "n1"])
+        add_from(emit(run, "grid"), "grid", lambda i: ["zen1", "n1"] if (not quick or i % 5 == 0) else ["zen1"])
         # ---- R1 + R2: file structure
-        for mode, n_quick, n_thorough in (("ibench", 150, 1885), ("asmbench", 200, 2600)):
+        for mode, n_quick, n_thorough in (("ibench", 80, 1200), ("asmbench", 110, 1500)):
             rows = emit(run, mode)
             if not quick:
                 run.add_mc(tlc.run_tlc("MC_BenchImport", "MC_BenchImport_%s4" % mode, env={"OUTFILE": "/dev/null"}, workers=16, timeout=900),
@@ -449,10 +597,12 @@ def main(tier, seed):
             run.note("replayed_of_emitted_" + mode, "%d of %d" % (len(pick), len(rows)))
             add_from(rows, mode, lambda i: [rnd.choice(["zen1", "zen1", "n1"])], pick)
         # ---- R3: seeded random files
-        for i in range(60 if quick else 700):
+        for i in range(40 if quick else 500):
             arch = rnd.choice(archs)
             cases.append(rand_case("rand/%d/%s" % (i, arch), "x86" if arch == "zen1" else "aarch64", arch, rnd, indexes[arch]))
+        t_imp = time.time()
         run_imports(cases, scratch, baselines)
+        run.note("wall_imports_s", round(time.time() - t_imp, 1))
     finally:
         shutil.rmtree(scratch, ignore_errors=True)
     validate(run, cases, indexes, "Trace_BenchImport")
@@ -460,9 +610,14 @@ def main(tier, seed):
     for c in cases:
         level_b_divergence(run, c)
         nforms += len({e["form"]["id"] for e in c["file"]})
-        ms = [(e["t"], e.get("m"), e.get("tp"), e.get("lt")) for e in c["file"]]
-        if any(e["t"] == "bad" for e in c["file"]) or len({e["form"]["id"] for e in c["file"]}) < len(c["file"]) or True:
-            run.mark([c["mode"], c["isa"], [(e["t"], e["form"]["id"], e.get("m"), e.get("tp"), e.get("lt"), e.get("why")) for e in c["file"]]] if len(c["file"]) <= 4 else c["id"])
+        kinds_per_form = collections.defaultdict(set)
+        for e in c["file"]:
+            kinds_per_form[e["form"]["id"]].add(e["t"])
+        merged = any({"tp", "lt"} <= k for k in kinds_per_form.values())
+        missing = any(en["new"] and (en["tp"] == -1 or en["lt"] == -1) for f in c["obs"]["forms"] for en in f["entries"])
+        if merged or missing or any(e["t"] == "bad" for e in c["file"]):
+            run.mark(c["id"].split("/")[0] + ":" + c["isa"] + ":" + json.dumps(
+                [(e["t"], e["form"]["id"], e.get("m"), e.get("tp"), e.get("lt"), e.get("why")) for e in c["file"]]))
     for c in (cases[3], cases[len(cases) // 2], cases[-1]):
         run.sample({"id": c["id"], "cli": "osaca --arch %s --import %s FILE" % (c["arch"], c["mode"]), "file_text": c["text"][:600],
                     "observed": c["obs"]["forms"][:2], "error": c["obs"]["err"]})
